@@ -254,6 +254,10 @@ def rule_split_and_placement(rep, fx):
     rep.check(ok_dst and ok_src and ok_pl, 'R05.6', 'insert_frags/placement', 'buffer[(start-1)*fs .. to] <- payload[.. to - (start-1)*fs]',
               'insert_frags does not place the fragment payload (from its offset 0) at (fragment_starting_num-1)*frag_size, the offset the writer cut it from', ins.where(cbb))
     rule_copy_window(rep, fx, 'R05.12')
+    # R05.13 every DATAFRAG built goes out (mutation triage: deleting the push onto the send list survived every check and the suite)
+    from rules import builtsent
+    builtsent.run_rule(rep, fx, 'R05.13')
+    rule_bytes_slice(rep, fx, 'R05.14')
     # ---------------------------------------------------------------- R05.7 counts
     nfb = fx.find('rtps::writer::Writer::num_frags_and_frag_size')
     tnb = fx.find('messages::submessages::data_frag::DataFrag::total_number_of_fragments')
@@ -481,3 +485,112 @@ def _an(a):
         if k in s_:
             return ('len(%s)' % k) if '::len' in s_ else k
     return 'frag_size' if a[0] == 'param' else s_[:30]
+
+
+def rule_bytes_slice(rep, fx, rid):
+    """The writer cuts fragments out of header ++ value with SerializedPayload::bytes_slice. R05.5 decides the offsets handed in; this rule decides that what comes back is
+    that window of header ++ value (the first fragment is the one that needs the copy path)."""
+    from rdv.poly import poly, minset, freeze, padd, atom
+    rep.rule(rid, 'bytes_slice(from, to) = (header ++ value)[from\' .. to\'] with to\' = min(to, len(value) + H) and from\' = min(from, to\'): without the header '
+                  '(from\' >= H) it is value.slice(from\' - H .. to\' - H); otherwise a buffer is filled, in this order and on every path, with representation_identifier.bytes, '
+                  'representation_options and - exactly when to\' > H - value.slice(.. to\' - H), and the result is its slice(from\' .. to\')')
+    b = fx.find('messages::submessages::elements::serialized_payload::SerializedPayload::bytes_slice')
+    rep.analysed(b)
+    og = Origins(b, summaries=False)
+    P = Pos(b)
+    edges = list(switch_edges(b, fx, og))
+    H = 'H_LEN'
+
+    def is_h(x):
+        return x[0] == 'const' and str(x[-1]).endswith(H)
+
+    def rng(term):
+        """(kind, start, end) of a Range / RangeTo aggregate"""
+        if term[0] == 'agg' and str(term[1]).endswith('ops::Range'):
+            return ('range', term[2][0], term[2][1])
+        if term[0] == 'agg' and str(term[1]).endswith('ops::RangeTo'):
+            return ('to', None, term[2][0])
+        return None
+    bad = []
+    slices = [(bb, t) for bb, t in b.calls() if callee_res(t).endswith('Bytes::slice')]
+    exts = [(bb, t) for bb, t in b.calls() if callee_res(t).endswith('extend_from_slice')]
+    # the two clamped bounds
+    to_c = from_c = None
+    for bb, t in b.calls():
+        if callee_res(t).endswith('cmp::min'):
+            a0, a1 = og.of_operand(t['args'][0], bb, 'term'), og.of_operand(t['args'][1], bb, 'term')
+            if a0 == ('param', 3) and term_has(a1, lambda x: x[0] == 'call' and x[1].endswith('::len')) and term_has(a1, is_h) and not term_has(a1, lambda x: x[0] == 'param' and x[1] != 1):
+                to_c = ('call', strip_generics(callee_res(t)), (a0, a1), bb)
+            if a0 == ('param', 2) and term_has(a1, lambda x: x == ('param', 3)):
+                from_c = (bb, a1)
+    if to_c is None or from_c is None:
+        bad.append('the clamps to\' = min(to, len(value) + H), from\' = min(from, to\') are not both there')
+    # direct path
+    direct = [(bb, t) for bb, t in slices if og.of_operand(t['args'][0], bb, 'term') == ('field', 'value', ('param', 1)) and (rng(og.of_operand(t['args'][1], bb, 'term')) or ('', 0, 0))[0] == 'range']
+    copyv = [(bb, t) for bb, t in slices if og.of_operand(t['args'][0], bb, 'term') == ('field', 'value', ('param', 1)) and (rng(og.of_operand(t['args'][1], bb, 'term')) or ('', 0, 0))[0] == 'to']
+    final = [(bb, t) for bb, t in slices if term_has(og.of_operand(t['args'][0], bb, 'term'), lambda x: x[0] == 'call' and x[1].endswith('freeze'))]
+    if len(direct) != 1 or len(copyv) != 1 or len(final) != 1:
+        bad.append('shape: %d direct slice(s) of value, %d prefix slice(s) of value, %d slice(s) of the filled buffer' % (len(direct), len(copyv), len(final)))
+    else:
+        def msub(term):
+            return frozenset(minset(term))
+        hp = None
+        for x in _subterms(og.of_operand(direct[0][1]['args'][1], direct[0][0], 'term')):
+            if is_h(x):
+                hp = {(atom(x),): 1}
+        _, ds, de = rng(og.of_operand(direct[0][1]['args'][1], direct[0][0], 'term'))
+        _, _, ce = rng(og.of_operand(copyv[0][1]['args'][1], copyv[0][0], 'term'))
+        _, fs_, fe = rng(og.of_operand(final[0][1]['args'][1], final[0][0], 'term'))
+        if hp is None:
+            bad.append('H_LEN does not occur in the direct slice')
+        else:
+            plus_h = lambda S: frozenset(freeze(padd(dict(x), hp, 1)) for x in S)
+            if plus_h(msub(ds)) != msub(fs_) or plus_h(msub(de)) != msub(fe):
+                bad.append('direct slice is not [from\' - H .. to\' - H] of the bounds the copy path uses')
+            if plus_h(msub(ce)) != msub(fe):
+                bad.append('the value prefix copied is not value[.. to\' - H]')
+            # from' and to' themselves
+            want_to = None
+            lenv = [x for x in _subterms(fe) if x[0] == 'call' and x[1].endswith('::len') and term_has(x, lambda z: z == ('field', 'value', ('param', 1)))]
+            if not lenv:
+                bad.append('to\' does not depend on len(value)')
+            else:
+                want_to = frozenset([freeze({(atom(('param', 3)),): 1}), freeze(padd({(atom(lenv[0]),): 1}, hp, 1))])
+                if msub(fe) != want_to:
+                    bad.append('to\' is not min(to, len(value) + H)')
+                if msub(fs_) != want_to | frozenset([freeze({(atom(('param', 2)),): 1})]):
+                    bad.append('from\' is not min(from, to\')')
+        # which path: the direct form needs from' >= H (from' > H is fine too: the copy form is right for every window)
+        def _fromtest(cond):
+            return cond[0] == 'bin' and cond[1] in ('Ge', 'Gt', 'Lt', 'Le') and is_h(cond[3]) and frozenset(minset(cond[2])) == frozenset(minset(fs_))
+        ge = [(s_, t_, lab) for s_, t_, cond, lab in edges if _fromtest(cond)]
+        if not ge:
+            bad.append('no test from\' >= H decides between the two forms')
+        else:
+            dsel = [(s_, t_) for s_, t_, cond, lab in edges if _fromtest(cond) and lab is (cond[1] in ('Ge', 'Gt'))]
+            csel = [(s_, t_) for s_, t_, cond, lab in edges if _fromtest(cond) and lab is not (cond[1] in ('Ge', 'Gt'))]
+            if not dsel or not P.every_path_passes(None, (direct[0][0], 'term'), via_edges=dsel, from_entry=True):
+                bad.append('value is sliced directly although the window starts inside the header')
+            # copy path: ext(rep id) -> ext(options) -> [to' > H: ext(value prefix)] -> freeze -> slice
+            ids = [bb for bb, t in exts if og.of_operand(t['args'][1], bb, 'term') == ('field', 'bytes', ('field', 'representation_identifier', ('param', 1)))]
+            ops = [bb for bb, t in exts if og.of_operand(t['args'][1], bb, 'term') == ('field', 'representation_options', ('param', 1))]
+            vals = [bb for bb, t in exts if term_has(og.of_operand(t['args'][1], bb, 'term'), lambda x: x[0] == 'call' and x[1].endswith('Bytes::slice') and len(x) > 3 and x[3] == copyv[0][0])]
+            fin = (final[0][0], 'term')
+            if len(ids) != 1 or len(ops) != 1 or len(vals) != 1 or len(exts) != 3:
+                bad.append('the buffer is not filled by exactly representation_identifier.bytes, representation_options and the value prefix (%d extend calls)' % len(exts))
+            else:
+                for s_, t_ in csel:
+                    if P.can_reach((t_, 0), (ops[0], 'term'), avoid_pos=[(ids[0], 'term')]) or P.can_reach((t_, 0), fin, avoid_pos=[(ids[0], 'term')]):
+                        bad.append('the representation identifier can be left out')
+                    if P.can_reach((t_, 0), fin, avoid_pos=[(ops[0], 'term')]) or P.can_reach((ops[0], 'term'), (ids[0], 'term')):
+                        bad.append('the representation options can be left out or come first')
+                if P.can_reach((vals[0], 'term'), (ops[0], 'term')) or P.can_reach((vals[0], 'term'), (ids[0], 'term')):
+                    bad.append('value bytes are written before the header')
+                # the value prefix may be skipped only where to' <= H is known
+                skip_ok = [(s_, t_) for s_, t_, cond, lab in edges if cond[0] == 'bin' and is_h(cond[3]) and (cond[1], lab) in (('Gt', False), ('Le', True), ('Ge', False), ('Lt', True)) and
+                           frozenset(minset(cond[2])) == frozenset(minset(fe))]
+                for s_, t_ in csel:
+                    if not P.every_path_passes((t_, 0), fin, via_pos=[(vals[0], 'term')], via_edges=skip_ok):
+                        bad.append('with to\' > H the value prefix is not copied on every path')
+    rep.check(not bad, rid, 'bytes_slice/window-of-header-and-value', 'both forms return (header ++ value)[from\' .. to\']',
+              'SerializedPayload::bytes_slice does not return the requested window of header ++ value (%s): the fragments the writer cuts do not add up to the sample' % '; '.join(bad[:3]), b.where())
